@@ -397,7 +397,16 @@ def main(argv):
     kf_lines = []
     for e in known_findings(prop):
         if e.get("status") == "known":
-            kf_lines.append("KNOWN-FINDING: property=%s %s" % (prop, e["what"]))
+            # reproduce the listed witness on the current tree in a child process (aborts are contained)
+            rc, out = run([TSGV, "known", e["id"]], cwd=wd, timeout=120, stderr_file=os.path.join(wd, "known.stderr"))
+            if rc != 0 and not out.strip():
+                status = "reproduced (process aborted, rc=%d)" % rc
+            elif out.startswith("REPRODUCED"):
+                status = "reproduced"
+            else:
+                status = "no longer reproduces: " + out.strip()[:120]
+            notes.append("known finding %s: %s" % (e["id"], status))
+            kf_lines.append("KNOWN-FINDING: property=%s %s %s [%s]" % (prop, e["id"], e["what"], status))
 
     # 5. proof broken and nothing concrete found
     concrete = [v for v in violations if v[1]]
